@@ -63,6 +63,13 @@ def match(bs, truth, path='', out=None, depth=0):
     k = bs.get('k')
     if k == 'cmod' and bs.get('v') is not None:
         return match(bs['v'], truth, path, out, depth)
+    # the heap block of an Rc/Arc (what `*rc` evaluates to in BugStalker): the payload is its value/data member
+    if bs.get('k') == 'struct':
+        names = [n for n, _ in bs.get('m', [])]
+        if 'strong' in names and 'weak' in names and ('value' in names or 'data' in names) and len(names) == 3 \
+                and not (isinstance(truth, dict) and 's' in truth):
+            inner = [x for n, x in bs['m'] if n in ('value', 'data')][0]
+            return match(inner, truth, path + '.value', out, depth)
     # a reference variable whose canonical form is the pointee (method resolution picks T's impl for `&T` receivers)
     if not (isinstance(truth, dict) and 'p' in truth and 'e' not in truth):
         found, tgt = _deref(bs)
